@@ -106,8 +106,19 @@ def _kt_gen(rng):
                 weights=[x / sw for x in wts], tau=[[rng.uniform(0, 1) for _ in range(W)] for _ in range(n)])
 
 
+def _kt_native(c, p):
+    """the compiled (numba) kernel itself on concrete arrays; tau is updated in place"""
+    import numpy as np
+    from taurex.contributions.absorption import contribute_ktau
+    tau = np.array(p['tau'], dtype=np.float64)
+    contribute_ktau(int(p['startK']), int(p['endK']), int(p['density_offset']), np.array(p['sigma'], dtype=np.float64),
+                    np.array(p['density'], dtype=np.float64), np.array(p['path'], dtype=np.float64), np.array(p['weights'], dtype=np.float64),
+                    tau, int(p['ngrid']), int(p['layer']), int(p['ngauss']))
+    return None, dict(p, tau=tau)
+
+
 KT = Unit('C20', 'taurex.contributions.absorption:contribute_ktau', _kt_params, pre=kt_pre, post=kt_post,
-          frame=['tau'], invariants={0: kt_inv0, 1: kt_inv1, 2: kt_inv2, 3: kt_inv3, 4: kt_inv4}, gen=_kt_gen,
+          frame=['tau'], invariants={0: kt_inv0, 1: kt_inv1, 2: kt_inv2, 3: kt_inv3, 4: kt_inv4}, gen=_kt_gen, native=_kt_native,
           bounds=[dict(rows_sigma=2, cols_sigma=1, g_sigma=2, ngauss=2, rows_tau=2, cols_tau=1, startK=0, endK=1,
                        density_offset=1, len_density=2, len_path=1, len_weights=2, ngrid=1, layer=1),
                   dict(rows_sigma=2, cols_sigma=2, g_sigma=2, ngauss=2, rows_tau=2, cols_tau=2, startK=0, endK=2,
